@@ -1,17 +1,17 @@
-\* generation, one caller: every step of Mount/Check/Unmount with every environment choice
+\* generation, one caller, prefetch on: Mount / Check (waits for the prefetch, bounded) / Unmount of one layer
 CONSTANTS
-    MPs = {"m1", "m2"}
+    MPs = {"m1"}
     Blobs = {"b1"}
-    Labs = {"ok", "bad", "skip", "none", "malformed", "mirror"}
+    Labs = {"ok"}
     Ops = {"Mount", "Check", "Unmount"}
-    MaxCalls = 2
+    MaxCalls = 3
     MaxConc = 1
     MaxObj = 2
     SameMp = FALSE
     OneMount = TRUE
     AllowNoVerif = TRUE
     DisableVerif = FALSE
-    NoPrefetch = TRUE
+    NoPrefetch = FALSE
     NoBgFetch = TRUE
     PreRes = FALSE
     Expiry = FALSE
